@@ -39,7 +39,7 @@ def main(argv):
         queuefam.EXTRA_PLANS["C03"] = [others.LEASECONC, others.PULLOPS, others.CONCX]
         queuefam.EXTRA_PLANS["C04"] = [others.PULLOPS, others.LEASECONC, others.CONCX]
         queuefam.EXTRA_PLANS["C05"] = [others.PULLOPS, others.LONGPOLL, others.RELOAD_SWEEPS, others.OPFRONT, others.CONCX]
-        queuefam.EXTRA_PLANS["C14"] = [others.OPFRONT]
+        queuefam.EXTRA_PLANS["C14"] = [others.OPFRONT, others.CONCX]
     except ImportError:
         pass
     if prop not in table:
